@@ -123,7 +123,8 @@ def check(prog, run):
 
     # ---- D4: merged groups
     r = run.rule("D4", "when fields are grouped by response key, the sub-selections of every member of a group are "
-                       "traversed (not only the first member's)", 1)
+                       "traversed: a call that descends into .selection_set inside a loop over groups receives the "
+                       "loop variable of an iteration over the whole group (or the group itself)", 1)
     for f in fns:
         for n in own_nodes(f.node):
             if not (isinstance(n, ast.For) and isinstance(n.iter, ast.Call) and isinstance(n.iter.func, ast.Attribute)
@@ -134,37 +135,30 @@ def check(prog, run):
                 tgt.id if isinstance(tgt, ast.Name) else None)
             if grp is None:
                 continue
-            # variables bound to grp[0]
-            firsts = set()
+            members = set()   # loop variables ranging over the whole group
             for x in ast.walk(n):
-                if isinstance(x, ast.Assign) and isinstance(x.value, ast.Subscript) and isinstance(x.value.value, ast.Name) \
-                        and x.value.value.id == grp and isinstance(x.value.slice, ast.Constant) and len(x.targets) == 1 \
-                        and isinstance(x.targets[0], ast.Name):
-                    firsts.add(x.targets[0].id)
-            if not firsts:
-                continue
-            r.instance("%s: group loop `%s`, first-member variables %s" % (f.qualname, norm_stmt(n), sorted(firsts)))
-            whole_used = False
+                if isinstance(x, ast.For) and x is not n and isinstance(x.iter, ast.Name) and x.iter.id == grp and isinstance(x.target, ast.Name):
+                    members.add(x.target.id)
+                if isinstance(x, ast.comprehension) and isinstance(x.iter, ast.Name) and x.iter.id == grp and isinstance(x.target, ast.Name):
+                    members.add(x.target.id)
             for x in ast.walk(n):
-                if isinstance(x, ast.For) and x is not n and isinstance(x.iter, ast.Name) and x.iter.id == grp:
-                    whole_used = True
-                if isinstance(x, ast.comprehension) and isinstance(x.iter, ast.Name) and x.iter.id == grp:
-                    whole_used = True
-            for x in ast.walk(n):
-                if isinstance(x, ast.Call):
-                    for a in list(x.args) + [k.value for k in x.keywords]:
-                        if isinstance(a, ast.Name) and a.id in firsts:
-                            for callee in prog.resolve_call(f, x):
-                                ps = callee.params
-                                idx = ([k.value for k in x.keywords].index(a) if a in [k.value for k in x.keywords] else None)
-                                pname = None
-                                if a in x.args:
-                                    i = x.args.index(a)
-                                    pname = ps[i] if i < len(ps) else None
-                                elif idx is not None:
-                                    pname = x.keywords[idx].arg
-                                if pname and "selection_set" in shapes.attr_reads(prog, callee, pname) and not whole_used:
-                                    run.report(r, "%s:%s:first-member-only(%s)" % (f.module.name, f.qualname, grp), f.where(x),
-                                               "only %s[0] of a merged response-key group is descended into: nesting under a "
-                                               "later field with the same response key is not measured" % grp,
-                                               {"call": norm_stmt(x)})
+                if not isinstance(x, ast.Call):
+                    continue
+                bound = [(i, None, a) for i, a in enumerate(x.args)] + [(None, k.arg, k.value) for k in x.keywords]
+                for i, kw, a in bound:
+                    if not isinstance(a, (ast.Name, ast.Subscript)):
+                        continue
+                    for callee in prog.resolve_call(f, x):
+                        ps = callee.params
+                        off = 1 if (callee.cls is not None and ps and ps[0] in ("self", "cls")) else 0
+                        pname = kw if kw else (ps[i + off] if i is not None and i + off < len(ps) else None)
+                        if not pname or "selection_set" not in shapes.attr_reads(prog, callee, pname):
+                            continue
+                        r.instance("%s: %s descends into .selection_set of `%s`" % (f.qualname, callee.qualname, ast.unparse(a)))
+                        ok = isinstance(a, ast.Name) and (a.id in members or a.id == grp)
+                        if not ok:
+                            run.report(r, "%s:%s:descends-into-part-of-group(%s)" % (f.module.name, f.qualname, grp), f.where(x),
+                                       "inside the loop over response-key groups, %s() descends into `%s`, which is not a member "
+                                       "variable of an iteration over the whole group `%s`: nesting under the other fields "
+                                       "sharing the response key is not measured" % (callee.qualname, ast.unparse(a), grp),
+                                       {"call": norm_stmt(x)})
